@@ -22,15 +22,16 @@ Definition eTasks (m : gmap positive task) : list Z :=
 Definition eCJob (cj : cjob) : list Z :=
   eJob (cj_job cj) ++ [if cj_pg cj then 1 else 0; cj_pguid cj; cj_queue cj; j_min (cj_job cj)].
 
-Definition eNodeFull (n : node) : list Z :=
-  [Zpos (n_id n); if n_has_node n then 1 else 0] ++
+Definition eNodeFull (a : nattr) (n : node) : list Z :=
+  [Zpos (n_id n); if n_has_node n then 1 else 0;
+   if na_over_node a then 1 else 0; if na_offline a then 1 else 0; na_zone a] ++
   eRes (n_idle n) ++ eRes (n_used n) ++ eRes (n_releasing n) ++ eRes (n_pipelined n) ++ eRes (n_alloc n) ++
   eTasks (n_tasks n).
 
 Definition eCache (c : cache) : list Z :=
   [-110] ++ eTasks (job_tasks c) ++
   [-111] ++ eList (fun kv => eCJob (snd kv)) (sort_kv (map_to_list (c_jobs c))) ++
-  [-112] ++ eList (fun kv => eNodeFull (snd kv)) (sort_kv (map_to_list (c_nodes c))) ++
+  [-112] ++ eList (fun kv => eNodeFull (default no_attr (c_nattr c !! fst kv)) (snd kv)) (sort_kv (map_to_list (c_nodes c))) ++
   [-113] ++ eList ePos (c_nodelist c) ++ eSet (c_queues c) ++
   [-114] ++ eList (fun k : positive * positive => [Zpos (fst k); Zpos (snd k)]) (c_errq c) ++
             eList (fun k : positive * Z => [Zpos (fst k); snd k]) (c_delq c).
@@ -41,7 +42,7 @@ Definition eSnap (eps : Z) (c : cache) (s : snapshot) : list Z :=
                    (filter (fun kv => n_has_node (snd kv) = true) (c_nodes c)) in
   eTasks (s_heap s) ++
   eList (fun kv => eCJob (snd kv)) (sort_kv (map_to_list (s_jobs s))) ++
-  eList (fun kv => eNodeFull (snd kv))
+  eList (fun kv => eNodeFull (default no_attr (c_nattr c !! fst kv)) (snd kv))
         (sort_kv (map_to_list (filter (fun kv => hz !! fst kv = None) (s_nodes s)))) ++
   eSet (dom hz) ++
   eList ePos (s_nodelist s) ++ eSet (s_queues s).
@@ -64,9 +65,15 @@ Definition dPod : dec pod :=
   if (c <? 0) || (m <? 0) || (g <? 0) then fail
   else ret (mkPod i j n ph del role prio pre (mk_req c m g)).
 
-Definition dNodeObj : dec nodeobj :=
+(* id cpu mem pods gpu | annotation oversubscription-cpu (present, milli) -memory (present, bytes) |
+   oversubscription label, offline-job-evicting, revocable zone | unschedulable, tainted, not-ready
+   (the last three are delivered to the real cache and, like it, ignored here) *)
+Definition dNodeObj : dec nodever :=
   let* i := dPos in let* c := dZ in let* m := dZ in let* p := dZ in let* g := dZ in
-  ret (mkNodeObj i (mk_alloc c m p g)).
+  let* oc := dOpt dZ in let* om := dOpt dZ in
+  let* on := dBool in let* off := dBool in let* z := dZ in
+  let* _ := dZ in let* _ := dZ in let* _ := dZ in
+  ret (mkNodeVer i (mk_alloc c m p g) ((fun x => x * grid) <$> oc) ((fun x => x * grid) <$> om) on off z).
 
 Definition dPG : dec pgobj :=
   let* i := dPos in let* u := dZ in let* q := dZ in let* m := dZ in
@@ -125,11 +132,13 @@ Definition dCJob : dec cjob :=
   let j0 := new_job i in
   ret (mkCJob (mkJob i (j_queue j0) mn (j_role_min j0) (j_role_total j0) ts ix al tot sm tsub) pg uid q).
 
-Definition dNodeFull : dec node :=
+Definition dNodeFull : dec (node * nattr) :=
   let* i := dPos in let* has := dBool in
+  let* on := dBool in let* off := dBool in let* z := dZ in
   let* idle := dRes in let* used := dRes in let* rel := dRes in let* pip := dRes in let* al := dRes in
   let* cs := dList dTaskFull in
-  ret (mkNode i has idle used rel pip al (list_to_map (map (fun t => (t_id t, t)) cs))).
+  ret (mkNode i has idle used rel pip al (list_to_map (map (fun t => (t_id t, t)) cs)),
+       mkNAttr 0 0 on off z al).
 
 Definition tag (t : Z) : dec unit := let* x := dZ in if x =? t then ret tt else fail.
 
@@ -145,15 +154,18 @@ Definition heap_of := heap_with false.
 Definition dCache : dec cache :=
   let* _ := tag (-110) in let* ts := dList dTaskFull in
   let* _ := tag (-111) in let* js := dList dCJob in
-  let* _ := tag (-112) in let* ns := dList dNodeFull in
+  let* _ := tag (-112) in let* nas := dList dNodeFull in
+  let ns := map fst nas in
   let* _ := tag (-113) in let* nl := dList dPos in let* qs := dSet in
   let* _ := tag (-114) in let* eq := dList (dPair dPos dPos) in let* dq := dList (dPair dPos dZ) in
   ret (mkCache ∅ ∅ (heap_of ts ns)
                (list_to_map (map (fun cj => (j_id (cj_job cj), cj)) js))
-               (list_to_map (map (fun n => (n_id n, n)) ns)) nl qs eq dq).
+               (list_to_map (map (fun n => (n_id n, n)) ns)) nl qs eq dq
+               (list_to_map (map (fun na : node * nattr => (n_id (fst na), snd na)) nas))).
 
 Definition dSnap : dec (snapshot * gset positive) :=
-  let* ts := dList dTaskFull in let* js := dList dCJob in let* ns := dList dNodeFull in
+  let* ts := dList dTaskFull in let* js := dList dCJob in let* nas := dList dNodeFull in
+  let ns := map fst nas in
   let* hz := dSet in let* nl := dList dPos in let* qs := dSet in
   (* a snapshot's nodes also hold copies of tasks whose job is not part of the snapshot *)
   ret (mkSnap (heap_with true ts ns)
